@@ -156,6 +156,12 @@ func (l *LastVoteproofsHandler) Set(vp base.Voteproof) bool {
 	switch vp.Point().Stage() { //nolint:exhaustive //...
 	case base.StageINIT:
 		l.last.ivp = vp.(base.INITVoteproof) //nolint:forcetypeassert //...
+
+		// NOTE suffrage confirm voteproof can be taken for the earlier point;
+		// the accept voteproof of the later point is stale.
+		if l.last.avp != nil && l.last.avp.Point().Point.Compare(vp.Point().Point) >= 0 {
+			l.last.avp = nil
+		}
 	case base.StageACCEPT:
 		l.last.avp = vp.(base.ACCEPTVoteproof) //nolint:forcetypeassert //...
 	default:
